@@ -338,4 +338,31 @@ PROPS = {
                 "distinct by rendered term",
         "trusted": [],
     },
+    "C19": {
+        "harness": "c19",
+        "imports": ["Base", "NodeURI", "Check19"],
+        "case_type": "c19_case",
+        "check": "c19_check",
+        "mismatch_is_violation": True,
+        "theories": ["theories/Base.v", "theories/NodeURI.v", "theories/NodeURIProofs.v"],
+        "check_theories": ["theories/Check19.v"],
+        "level_text": "Coq theorems over byte-string models of normalizeNodeURI and of net.JoinHostPort/SplitHostPort: the "
+                      "stored address always carries the authenticated node id and an override naming another id is "
+                      "refused; the host is the override's unless missing or unspecified (then the connection's source "
+                      "host), the port the override's or 30303; the advertised host:port splits back to exactly that "
+                      "host and port for every host without brackets and every port without ':' '[' ']' (IPv4, IPv6 "
+                      "with or without zone, names); an undeterminable address is refused, never stored; joining with a "
+                      "bare ':' is refuted for IPv6. Tied to the code by in-kernel evaluation on generated overrides x "
+                      "source addresses through the verif-exported normalizeNodeURI and through vipnode_connect over "
+                      "connections with scripted source addresses; the stored URI is parsed with the agent-side "
+                      "ethnode.ParseNodeURI and net.SplitHostPort.",
+        "level_note": "Trusted: Coq kernel; net/url parsing and rendering (the override reaches the model as the "
+                      "Username/Hostname/Port the code itself extracts; URL.String escaping is exercised, not modelled).",
+        "technique": "Coq proof over byte-string models + vm_compute correspondence through hook and public path",
+        "rule": "overrides: absent, unparsable, schemes enode/http/ws, user absent/own id/other id/other name/id:password, "
+                "hosts IPv4, name, IPv6 (plain, zone), [::], 0.0.0.0, empty, localhost, ports absent/30303/1234/0/65535, "
+                "paths/queries/fragments; source addresses IPv4, IPv6, zone, name, empty; every 20th through "
+                "vipnode_connect; distinct by rendered term",
+        "trusted": [],
+    },
 }
